@@ -192,6 +192,24 @@ class HandlerEval:
         self._dispatch[vcls] = d
         return d
 
+    def dispatch_passes_positional(self, vcls: str) -> Optional[bool]:
+        """Does some path of visit_Call hand something derived from the call's argument list (node.args: `*node.args`, a list
+        filled from a loop over it, its translated image, single elements) to the function handler positionally? False only when
+        visit_Call dispatches to handlers and no positional argument on any path mentions node.args at all; None when visit_Call has
+        no handler dispatch."""
+        seen = False
+        for p in self.eval_visit(vcls, "Call") or []:
+            for ev in p.events:
+                if ev.kind != "dispatch":
+                    continue
+                seen = True
+                for a in ev.data["args"]:
+                    inner = a.args[0] if isinstance(a, Sym) and a.op == "star" else a
+                    txt = repr(inner) + repr(getattr(inner, "loop_parts", ""))
+                    if ".args" in txt:
+                        return True
+        return False if seen else None
+
     def func_handlers(self, vcls: str) -> Dict[str, Tuple[Any, ast.FunctionDef]]:
         d = self.dispatch(vcls)
         if d is None:
